@@ -156,6 +156,10 @@ def gen_cfg(rng, limit, regs_mode=None):
         ins = [rng.choice([1, 2])]
     elif r < 0.35:
         ins = [0, 1]
+    elif r < 0.41:
+        ins = [1, 2]
+    elif r < 0.43:
+        ins = [0, 1, 2]
     return (1 if nil else 0, ns, pred, tuple(regs), tuple(ins), limit)
 
 
